@@ -167,9 +167,11 @@ def check_handover(ctx, cfg):
             continue
         def adopts(fn):
             return ("Box::<T" in fn and fn.endswith("::from_raw")) or fn in VEC_ADOPT
-        if not any(t["term"]["k"] == "call" and t["term"]["f"].get("k") == "fn" and adopts(t["term"]["f"]["def"]) for t in b["mir"]["blocks"]):
-            continue
+        if b["kind"] != "Closure" and ctx.is_helper(cfg, b):
+            continue  # a private helper is judged expanded in its callers (where the guard that makes the hand-over valid lives)
         a = ctx.analysis(cfg, b["key"])
+        if not any(adopts(c.fn) for c in a.calls):
+            continue
         for i, f in enumerate([c for c in a.calls if adopts(c.fn)]):
             site = "%s#from_raw#%d" % (b["key"], i)
             p = f.args[0]
